@@ -46,6 +46,7 @@ type Attr struct {
 	Meta []int    `json:"meta"`
 	Tags Tags     `json:"tags"`
 	X    int      `json:"x"`
+	Al   int      `json:"al"` // alias class: the attributes of one class are one *expr.AttributeExpr (0: none)
 }
 type Node struct {
 	Kind  string `json:"kind"`
@@ -89,6 +90,7 @@ type built struct {
 	root   expr.DataType
 	node   []expr.DataType       // by node id (1-based; [0] unused)
 	parent []*expr.AttributeExpr // the attribute whose Type is the node (nil: the root, or a user type reached first elsewhere)
+	bases  []expr.DataType       // the user types defined by an object that holds an aliased attribute (what Extend was given)
 }
 
 // every other user type without a UID (dsl.Type) is renamed with Meta("struct:type:name", ...), as designs do to
@@ -121,8 +123,17 @@ func build(g Graph) *built {
 	}
 	done := make([]bool, n+1)
 	var mk func(r Ref, holder *expr.AttributeExpr) expr.DataType
+	class := map[int]*expr.AttributeExpr{} // alias class -> the one attribute all its holders point to
 	mkAttr := func(a Attr) *expr.AttributeExpr {
+		if a.Al != 0 {
+			if att, ok := class[a.Al]; ok {
+				return att
+			}
+		}
 		att := &expr.AttributeExpr{}
+		if a.Al != 0 {
+			class[a.Al] = att
+		}
 		att.Type = mk(a.Ref, att)
 		decorate(att, a)
 		return att
@@ -192,6 +203,16 @@ func build(g Graph) *built {
 		return dt
 	}
 	b.root = mk(g.Root, nil)
+	for i, nd := range g.Nodes {
+		if u := users[i+1]; u != nil && done[i+1] && len(nd.Attrs) == 1 && nd.Attrs[0].Ref.N > 0 {
+			for _, a := range g.Nodes[nd.Attrs[0].Ref.N-1].Attrs {
+				if a.Al != 0 && g.Nodes[nd.Attrs[0].Ref.N-1].Kind == "object" {
+					b.bases = append(b.bases, u)
+					break
+				}
+			}
+		}
+	}
 	return b
 }
 
@@ -233,11 +254,33 @@ type walker struct {
 	ids   map[expr.DataType]int
 	order []expr.DataType
 	nodes []Node
+	atts  [][]*expr.AttributeExpr // the attribute objects, parallel to nodes[i].Attrs
 }
 
 func canon(root expr.DataType) (Graph, *walker) {
 	w := &walker{ids: map[expr.DataType]int{}}
 	r := w.ref(root)
+	// alias classes: attribute objects met in two places, numbered in the order of their first place
+	count := map[*expr.AttributeExpr]int{}
+	for _, as := range w.atts {
+		for _, p := range as {
+			if p != nil {
+				count[p]++
+			}
+		}
+	}
+	num := map[*expr.AttributeExpr]int{}
+	for i, as := range w.atts {
+		for k, p := range as {
+			if p == nil || count[p] < 2 {
+				continue
+			}
+			if _, ok := num[p]; !ok {
+				num[p] = len(num) + 1
+			}
+			w.nodes[i].Attrs[k].Al = num[p]
+		}
+	}
 	return Graph{Root: r, Nodes: w.nodes}, w
 }
 
@@ -258,34 +301,42 @@ func (w *walker) ref(dt expr.DataType) Ref {
 	w.ids[dt] = id
 	w.order = append(w.order, dt)
 	w.nodes = append(w.nodes, Node{})
+	w.atts = append(w.atts, nil)
 	nd := Node{Attrs: []Attr{}}
+	var ptrs []*expr.AttributeExpr
+	add := func(name string, att *expr.AttributeExpr) {
+		nd.Attrs = append(nd.Attrs, w.attr(name, att))
+		ptrs = append(ptrs, att)
+	}
 	switch t := dt.(type) {
 	case *expr.Array:
 		nd.Kind = "array"
-		nd.Attrs = append(nd.Attrs, w.attr("elem", t.ElemType))
+		add("elem", t.ElemType)
 	case *expr.Map:
 		nd.Kind = "map"
-		nd.Attrs = append(nd.Attrs, w.attr("key", t.KeyType), w.attr("elem", t.ElemType))
+		add("key", t.KeyType)
+		add("elem", t.ElemType)
 	case *expr.Object:
 		nd.Kind = "object"
 		for _, nat := range *t {
-			nd.Attrs = append(nd.Attrs, w.attr(nat.Name, nat.Attribute))
+			add(nat.Name, nat.Attribute)
 		}
 	case *expr.Union:
 		nd.Kind, nd.Name = "union", t.TypeName
 		for _, nat := range t.Values {
-			nd.Attrs = append(nd.Attrs, w.attr(nat.Name, nat.Attribute))
+			add(nat.Name, nat.Attribute)
 		}
 	case *expr.ResultTypeExpr:
 		nd.Kind, nd.Name = "result", t.TypeName
-		nd.Attrs = append(nd.Attrs, w.attr("", t.Attribute()))
+		add("", t.Attribute())
 	case *expr.UserTypeExpr:
 		nd.Kind, nd.Name = "user", t.Name()
-		nd.Attrs = append(nd.Attrs, w.attr("", t.Attribute()))
+		add("", t.Attribute())
 	default:
 		nd.Kind = "?" + fmt.Sprintf("%T", dt)
 	}
 	w.nodes[id-1] = nd
+	w.atts[id-1] = ptrs
 	return Ref{P: "-", N: id}
 }
 
@@ -416,6 +467,39 @@ func shared(a, b expr.DataType) int {
 
 func same(a, b Graph) bool { return reflect.DeepEqual(a, b) }
 
+// noAl forgets which attributes are one object: what is left is the structure
+func noAl(g Graph) Graph {
+	c := cloneGraph(g)
+	for i := range c.Nodes {
+		for k := range c.Nodes[i].Attrs {
+			c.Nodes[i].Attrs[k].Al = 0
+		}
+	}
+	return c
+}
+
+// sharedAll counts the mutable structures reachable from one of as and from one of bs
+func sharedAll(as, bs []expr.DataType) int {
+	pa, pb := map[any]bool{}, map[any]bool{}
+	for _, a := range as {
+		for k := range pointers(a) {
+			pa[k] = true
+		}
+	}
+	for _, b := range bs {
+		for k := range pointers(b) {
+			pb[k] = true
+		}
+	}
+	n := 0
+	for k := range pa {
+		if pb[k] {
+			n++
+		}
+	}
+	return n
+}
+
 // ---- locating things in a real graph -------------------------------------------------------------
 
 func attrAt(dt expr.DataType, idx int) *expr.AttributeExpr {
@@ -541,6 +625,14 @@ func transform(g Graph, orig *built, t Transform) expr.DataType {
 		return expr.DupAtt(&expr.AttributeExpr{Type: orig.root}).Type
 	case "unshare", "hollow", "redir":
 		return build(reshare(g, t)).root
+	case "unalias": // every holder of an aliased attribute gets an attribute of its own
+		c := cloneGraph(g)
+		for i := range c.Nodes {
+			for k := range c.Nodes[i].Attrs {
+				c.Nodes[i].Attrs[k].Al = 0
+			}
+		}
+		return build(c).root
 	}
 	b := build(g)
 	var dt expr.DataType
@@ -814,11 +906,12 @@ func startDup(g Graph, wide bool) (r *dupRun) {
 			r.obs.Panic = fmt.Sprint(p)
 		}
 	}()
-	r.orig = build(g).root
+	b := build(g)
+	r.orig = b.root
 	snap, _ := canon(r.orig)
 	r.cp = expr.Dup(r.orig)
 	cc, _ := canon(r.cp)
-	r.obs.CopyEq = same(snap, cc)
+	r.obs.CopyEq = same(noAl(snap), noAl(cc)) // the structure; which attributes of the copy are one object shows in canC
 	r.obs.Unch = []bool{}
 	r.obs.CanO, r.obs.CanC = snap, cc
 	if *full {
@@ -836,13 +929,24 @@ func startDup(g Graph, wide bool) (r *dupRun) {
 		}
 	}
 	r.obs.Equal = expr.Equal(r.orig, r.cp)
-	att := expr.DupAtt(&expr.AttributeExpr{Type: r.orig})
+	// DupAtt of an attribute of this type; the user types whose attributes the type took over (Extend) are its
+	// Bases, as on a finalized attribute: DupAtt copies them with the same memo, before the attribute
+	att := expr.DupAtt(&expr.AttributeExpr{Type: r.orig, Bases: b.bases})
 	ac, _ := canon(att.Type)
-	r.obs.AttEq = same(snap, ac)
-	r.obs.AttShared = shared(r.orig, att.Type)
+	// the same structure as the original, and the same attributes in one as in the copy made by Dup
+	like := func(x Graph) bool { return same(noAl(snap), noAl(x)) && (!same(noAl(cc), noAl(x)) || same(cc, x)) }
+	r.obs.AttEq = like(ac) && len(att.Bases) == len(b.bases)
+	for i := range b.bases {
+		if i < len(att.Bases) {
+			bo, _ := canon(b.bases[i])
+			bc, _ := canon(att.Bases[i])
+			r.obs.AttEq = r.obs.AttEq && same(noAl(bo), noAl(bc))
+		}
+	}
+	r.obs.AttShared = sharedAll(append([]expr.DataType{r.orig}, b.bases...), append([]expr.DataType{att.Type}, att.Bases...))
 	again, _ := canon(expr.Dup(r.orig))
 	after, _ := canon(r.orig)
-	r.obs.Again = same(again, snap) && same(after, snap)
+	r.obs.Again = like(again) && same(after, snap)
 	return r
 }
 
